@@ -36,7 +36,7 @@ def shards(tier, seed):
 def requirements(tier):
     return {"steps_checked": 800, "shadow_bitwise_checked": 1000, "task_param_checked": 250, "alias_checked": 300, "w_grad_recreated_while_caller_holds_the_previous_one": 25,
             "values_unchanged_checked": 400, "repeat_bitwise": 100, "w_create_then_accumulate": 100, "w_accumulate_onto_edited": 80,
-            "w_none_after_non_none": 30, "w_mtl_and_bw_on_common_leaf": 60, "w_autograd_interleaved": 80, "w_fresh_created": 300, "w_non_contiguous_parameter": 50, "w_non_contiguous_grad_assigned": 10}
+            "w_none_after_non_none": 30, "w_mtl_and_bw_on_common_leaf": 60, "w_autograd_interleaved": 80, "w_fresh_created": 300, "w_non_contiguous_parameter": 50, "w_non_contiguous_grad_assigned": 10, "w_two_losses_with_equal_values": 4}
 
 
 def gen_agg(rng, m):
@@ -63,6 +63,10 @@ def gen_case(rng, i, max_len=8):
     for d in L:
         if sum(1 for x in d["shape"] if x > 1) >= 2 and rng.random() < 0.4:
             d["nc"] = True  # non-contiguous parameter
+    if rng.random() < 0.3:
+        src = int(rng.integers(npool))  # a twin of a head parameter (same values, another tensor): heads with exactly equal loss values
+        L.append({**L[ns + src], "like": src})
+        npool += 1
     vseed = int(rng.integers(1 << 30))
     A = P.gen_program(rng, dtype, leaf_descs=L, vseed=vseed)
     C = P.gen_program(rng, dtype, leaf_descs=L, vseed=vseed)
@@ -108,7 +112,7 @@ def gen_case(rng, i, max_len=8):
 def _slim(case):
     c = dict(case)
     for k in ("A", "C"):
-        c[k] = {kk: v for kk, v in case[k].items() if kk != "deps"}
+        c[k] = dict(case[k])
     c["B"] = C02._slim({"program": case["B"]})["program"]
     return c
 
@@ -438,6 +442,8 @@ def check_case(case, ctx):
         ctx.count("w_non_contiguous_parameter")
     if any(("bw", j) in hist_flags and ("mtl", j) in hist_flags for j in range(nL)):
         ctx.count("w_mtl_and_bw_on_common_leaf")
+    if any("twin_of_head" in h for h in case["B"]["heads"]) and any(s["op"] == "mtl" for s in case["steps"]):
+        ctx.count("w_two_losses_with_equal_values")
     ops = [s["op"] for s in case["steps"]]
     ctx.klass(f"len={len(ops)}")
     ctx.evaluated(fingerprint(_slim(case)), nontrivial=created_then_acc)
